@@ -982,4 +982,102 @@ theorem resume_total_order_independent (ps : List Part) :
   rw [List.map_map] at h
   exact h
 
+/-! ## a pull that joins a transfer in flight -/
+
+/-- repaired variant: whatever the joined transfer delivered (even corrupt bytes), the joining pull's
+    download loop keeps "every blob hashes to its name" -/
+theorem dlLoopJ_blobInv_early {cfg : Cfg} {hash : Bytes → Digest} {reg : Registry} {sc : Scripts}
+    (hearly : cfg.verifyEarly = true) (x : Digest) (jr : JoinRes) (ls : List Layer) :
+    ∀ {s s' : DlState} {o : Outcome}, dlLoopJ cfg hash reg sc x jr ls s = (o, s') →
+      (∀ d c, s.st.blobs d = some c → hash c = d) → ∀ d c, s'.st.blobs d = some c → hash c = d := by
+  induction ls with
+  | nil =>
+    intro s s' o h hinv
+    simp only [dlLoopJ] at h
+    cases h; exact hinv
+  | cons l ls ih =>
+    intro s s' o h hinv
+    unfold dlLoopJ at h
+    split at h
+    · split at h
+      · cases h; exact hinv
+      · rename_i c
+        split at h
+        · cases h
+          intro d c' hd
+          by_cases e : d = x
+          · subst e; simp [upd_same] at hd
+          · simp only [upd_other _ _ _ _ e] at hd; exact hinv d c' hd
+        · rename_i hcond
+          refine ih h ?_
+          intro d c' hd
+          by_cases e : d = x
+          · subst e
+            simp only [upd_same] at hd
+            cases hd
+            simpa [hearly] using hcond
+          · simp only [upd_other _ _ _ _ e] at hd; exact hinv d c' hd
+    · split at h
+      · rename_i s1 hdl
+        exact ih h (dlLoop_blobInv_early hearly [l] hdl hinv)
+      · rename_i r hne
+        generalize hr : dlLoop cfg hash reg sc [l] s = q at h
+        obtain ⟨o1, s1⟩ := q
+        cases h
+        exact dlLoop_blobInv_early hearly [l] hr hinv
+
+/-- on success of the joining pull's download loop every layer is addressable and stored -/
+theorem dlLoopJ_ok_present {cfg : Cfg} {hash : Bytes → Digest} {reg : Registry} {sc : Scripts}
+    (x : Digest) (jr : JoinRes) (ls : List Layer) :
+    ∀ {s s' : DlState}, dlLoopJ cfg hash reg sc x jr ls s = (.ok (), s') →
+      (∀ d, (∃ c, s.st.blobs d = some c) → ∃ c, s'.st.blobs d = some c) ∧
+      (∀ l ∈ ls, ∃ d c, l.digest = .ok d ∧ s'.st.blobs d = some c) := by
+  induction ls with
+  | nil =>
+    intro s s' h
+    simp only [dlLoopJ] at h
+    cases h
+    exact ⟨fun _ h => h, fun l hl => by cases hl⟩
+  | cons l ls ih =>
+    intro s s' h
+    unfold dlLoopJ at h
+    split at h
+    · rename_i hx
+      split at h
+      · cases h
+      · rename_i c
+        split at h
+        · cases h
+        · obtain ⟨hk, hp⟩ := ih h
+          have hxs : ∃ c', s'.st.blobs x = some c' := hk x ⟨c, by simp [upd_same]⟩
+          refine ⟨?_, ?_⟩
+          · intro d ⟨c', hd⟩
+            apply hk
+            by_cases e : d = x
+            · subst e; exact ⟨c, by simp [upd_same]⟩
+            · exact ⟨c', by simp only [upd_other _ _ _ _ e]; exact hd⟩
+          · intro l' hl'
+            rcases List.mem_cons.1 hl' with rfl | hin
+            · obtain ⟨c', hc'⟩ := hxs
+              exact ⟨x, c', hx, hc'⟩
+            · exact hp l' hin
+    · split at h
+      · rename_i s1 hdl
+        obtain ⟨hk, hp⟩ := ih h
+        obtain ⟨_, ik, _, _⟩ := dlLoop_preserve [l] hdl
+        refine ⟨?_, ?_⟩
+        · intro d ⟨c', hd⟩
+          exact hk d ⟨c', ik d c' hd⟩
+        · intro l' hl'
+          rcases List.mem_cons.1 hl' with rfl | hin
+          · obtain ⟨d, c', hd, hc'⟩ := dlLoop_ok_present [l'] hdl l' (by simp)
+            obtain ⟨c'', hc''⟩ := hk d ⟨c', hc'⟩
+            exact ⟨d, c'', hd, hc''⟩
+          · exact hp l' hin
+      · rename_i r hne
+        generalize hr : dlLoop cfg hash reg sc [l] s = q at h hne
+        obtain ⟨o1, s1⟩ := q
+        cases h
+        exact absurd rfl (hne s')
+
 end OllamaVerif.Pull
